@@ -353,6 +353,13 @@ class CallGraph:
         self.cha = cha
         self.edges: dict[str, set[str]] = {}
         self.sites: dict[tuple[str, str], ast.Call] = {}
+        props = {
+            q
+            for q, f in model.funcs.items()
+            if any((dotted(d) or '').rsplit('.', 1)[-1] in ('property', 'cached_property') for d in f.node.decorator_list)
+        }
+        prop_names = {q.rsplit('.', 1)[-1] for q in props}
+        self.properties = props
         for fi in model.funcs.values():
             outs: set[str] = set()
             for n in walk_no_nested(fi.node):
@@ -371,6 +378,16 @@ class CallGraph:
                         for t in tgt or []:
                             outs.add(t)
                             self.sites.setdefault((fi.qualname, t), n)
+                elif isinstance(n, ast.Attribute) and isinstance(n.ctx, ast.Load) and n.attr in prop_names:
+                    # reading a property runs its getter (lazy parsers live there)
+                    for c in model.type_classes(fi.module, n.value):
+                        if c not in model.classes:
+                            continue
+                        for k in [c] + (sorted(model.subclasses.get(c, ())) if cha else []):
+                            e = model.effective(k, n.attr)
+                            if e is not None and e.qualname in props:
+                                outs.add(e.qualname)
+                                self.sites.setdefault((fi.qualname, e.qualname), n)  # type: ignore[arg-type]
             # nested functions are reachable from their parent (callbacks are scheduled, not called)
             self.edges[fi.qualname] = outs
         for fi in model.funcs.values():
